@@ -77,7 +77,7 @@ module.exports = mk({
   families: ['A', 'C', 'B', 'M', 'S', 'P', 'T', 'H', 'Q', 'R', 'N', 'L'],
   // real library files: the same static oracle on syntax nobody wrote an expectation for
   corpus: { configs: ['FULL', 'RENAMED'], quickLimit: 60 },
-  familyOpts: (tier) => ({ B: { k: tier === 'thorough' ? 2 : 1 } }),
+  familyOpts: (tier) => ({ B: { k: tier === 'thorough' ? 2 : 1 }, H: tier === 'thorough' ? {} : { L: 2 }, R: tier === 'thorough' ? {} : { rhs: ['b', 'f()', 'a + b'] } }),
   async oracle (o) {
     const { a, v, res } = o
     if (!a.modified || a.contentUnparsable || a.inputUnparsable) return
